@@ -62,6 +62,8 @@ type nctx struct {
 	// and `ref = e` ends the step with the reference the walk continues with
 	stepRef  types.Object
 	stepKind types.Object
+	lcpMode  bool         // lowestCommonParent step: returns are outcomes, prefixMismatch is a parameter
+	lcpN     types.Object // the current reference `n`
 	loopCont func() string // inside a loop body: what `continue` means (post statement + next iteration)
 	pushQ    *nvar         // the traversal stack of all()/backward(): the function's result
 }
@@ -113,6 +115,10 @@ func (c *nctx) leanType(sort string) string {
 		return "Bytes"
 	case "refs":
 		return "List (Option C)"
+	case "ents":
+		return "List (Option C × Int)"
+	case "ent":
+		return "Option C × Int"
 	}
 	panic("sort " + sort)
 }
@@ -143,6 +149,12 @@ func (c *nctx) sortOf(t types.Type, pos token.Pos) string {
 	}
 	if c.w.isNamed(t, "nodeRef") {
 		return "ref"
+	}
+	if c.w.isNamed(t, "rangeEntry") {
+		return "ent"
+	}
+	if sl, ok := t.Underlying().(*types.Slice); ok && c.w.isNamed(sl.Elem(), "rangeEntry") {
+		return "ents"
 	}
 	switch u := t.Underlying().(type) {
 	case *types.Basic:
@@ -354,6 +366,27 @@ func (c *nctx) expr(e ast.Expr) (string, string) {
 			return "(" + x + " " + e.Op.String() + " " + y + ")", xs
 		}
 		c.fail(e.Pos(), "unsupported operator %s", e.Op)
+	case *ast.CompositeLit:
+		if c.w.isNamed(c.w.info.TypeOf(e), "rangeEntry") && len(e.Elts) == 2 {
+			var r, d string
+			for i, el := range e.Elts {
+				v := el
+				name := []string{"ref", "depth"}[i]
+				if kv, ok := el.(*ast.KeyValueExpr); ok {
+					name, v = kv.Key.(*ast.Ident).Name, kv.Value
+				}
+				switch name {
+				case "ref":
+					r = c.rhs(v, "ref")
+				case "depth":
+					d = c.rhs(v, "int")
+				}
+			}
+			if r != "" && d != "" {
+				return "(" + r + ", " + d + ")", "ent"
+			}
+		}
+		c.fail(e.Pos(), "unsupported composite literal %s", types.ExprString(e))
 	case *ast.SliceExpr:
 		c.fail(e.Pos(), "a slice expression outside copy/clear is outside the fragment")
 	case *ast.CallExpr:
@@ -421,6 +454,25 @@ func (c *nctx) call(e *ast.CallExpr) (string, string) {
 		c.fail(e.Pos(), "unsupported conversion from %s to %s", from, to)
 	}
 	name, obj := c.calleeName(e)
+	if c.lcpMode {
+		fun := unparen(e.Fun)
+		if ix, ok := fun.(*ast.IndexListExpr); ok {
+			fun = ix.X
+		} else if ix, ok := fun.(*ast.IndexExpr); ok {
+			fun = ix.X
+		}
+		if id, ok := fun.(*ast.Ident); ok && id.Name == "prefixMismatch" && len(e.Args) == 3 {
+			// prefixMismatch(n, prefix, depth) with exactly the step's own n, prefix and depth: the parameter `pm`
+			if a0, ok := unparen(e.Args[0]).(*ast.Ident); ok && c.w.info.Uses[a0] == c.lcpN {
+				_, s1 := c.expr(e.Args[1])
+				_, s2 := c.expr(e.Args[2])
+				if s1 == "bytes" && s2 == "int" {
+					return "pm", "int"
+				}
+			}
+			c.fail(e.Pos(), "prefixMismatch with other arguments than (n, prefix, depth)")
+		}
+	}
 	if _, isBuiltin := obj.(*types.Builtin); isBuiltin {
 		switch name {
 		case "min":
@@ -431,12 +483,22 @@ func (c *nctx) call(e *ast.CallExpr) (string, string) {
 					return "(min " + x + " " + y + ")", xs
 				}
 			}
+		case "len":
+			if len(e.Args) == 1 {
+				x, xs := c.expr(e.Args[0])
+				if xs == "bytes" {
+					return "(" + x + ".length : Int)", "int"
+				}
+			}
 		case "append":
 			if len(e.Args) == 2 && !e.Ellipsis.IsValid() {
 				x, xs := c.expr(e.Args[0])
 				y, ys := c.expr(e.Args[1])
 				if xs == "refs" && ys == "ref" {
 					return "(" + x + " ++ [" + y + "])", "refs"
+				}
+				if xs == "ents" && ys == "ent" {
+					return "(" + x + " ++ [" + y + "])", "ents"
 				}
 			}
 		case "int":
@@ -516,7 +578,7 @@ func (c *nctx) store(lhs ast.Expr, val func(cur string, sort string) string) str
 		if v.sort == "img" || v.sort == "ref" {
 			c.fail(l.Pos(), "assignment to the %s variable %s", v.sort, l.Name)
 		}
-		if v.sort == "refs" && v != c.pushQ {
+		if (v.sort == "refs" || v.sort == "ents") && v != c.pushQ {
 			c.fail(l.Pos(), "assignment to the slice variable %s", l.Name)
 		}
 		return fmt.Sprintf("let %s : %s := %s\n", v.lean, c.leanType(v.sort), val(v.lean, v.sort))
@@ -699,6 +761,18 @@ func (c *nctx) stmts(list []ast.Stmt, k func() string) string {
 	case *ast.SwitchStmt:
 		return c.switchStmt(s, next)
 	case *ast.ReturnStmt:
+		if c.lcpMode {
+			if len(s.Results) == 1 {
+				r := unparen(s.Results[0])
+				if id, ok := r.(*ast.Ident); ok && c.w.info.Uses[id] == c.lcpN {
+					return "pure .here\n"
+				}
+				if cl, ok := r.(*ast.CompositeLit); ok && len(cl.Elts) == 0 && c.w.isNamed(c.w.info.TypeOf(cl), "nodeRef") {
+					return "pure .nothing\n"
+				}
+			}
+			c.fail(s.Pos(), "unsupported return in the descent step")
+		}
 		if !c.retSlot {
 			if len(s.Results) != 0 {
 				c.fail(s.Pos(), "unsupported return of a value")
@@ -1525,6 +1599,174 @@ func (w *world) genPushStep(name string) string {
 		b.WriteString(l + "\n")
 	}
 	fmt.Fprintf(&b, "def %s (E : Env C) (tag : Nat) (nd : Img C) (%s : List (Option C)) : Option (List (Option C)) := do\n%s", c.fname, c.pushQ.lean, indentN(code, "  "))
+	return b.String()
+}
+
+// genRangePushStep: rangeScan's loop body ends in the same switch, pushing `rangeEntry{child, childDepth}`; whatever the
+// switch reads from the enclosing scope besides the stack and the node (here `childDepth`) becomes a parameter.
+func (w *world) genRangePushStep() string {
+	name := "rangeScan"
+	fd := w.findFunc(name, "")
+	c := &nctx{w: w, fname: name + "_push", env: map[types.Object]*nvar{}, used: map[string]int{}, viewOf: map[*nvar]*nvar{}}
+	fail := func(pos token.Pos, what string) { w.failAt(pos, "tree.go traversal translator (%s): expected %s", name, what) }
+	var lit *ast.FuncLit
+	for _, st := range fd.Body.List {
+		if ret, ok := st.(*ast.ReturnStmt); ok && len(ret.Results) == 1 {
+			lit, _ = unparen(ret.Results[0]).(*ast.FuncLit)
+		}
+	}
+	if lit == nil {
+		fail(fd.Pos(), "`return func(yield …) { … }`")
+	}
+	var loop *ast.ForStmt
+	var qObj types.Object
+	for _, st := range lit.Body.List {
+		if ds, ok := st.(*ast.DeclStmt); ok {
+			if gd, ok := ds.Decl.(*ast.GenDecl); ok && gd.Tok == token.VAR && len(gd.Specs) == 1 {
+				vs := gd.Specs[0].(*ast.ValueSpec)
+				if len(vs.Names) == 1 && len(vs.Values) == 0 {
+					if sl, ok := w.info.Defs[vs.Names[0]].Type().Underlying().(*types.Slice); ok && w.isNamed(sl.Elem(), "rangeEntry") {
+						qObj = w.info.Defs[vs.Names[0]]
+					}
+				}
+			}
+		}
+		if f, ok := st.(*ast.ForStmt); ok && f.Init == nil && f.Post == nil && f.Cond != nil && qObj != nil && w.text(f.Cond) == "len("+qObj.Name()+") != 0" {
+			loop = f
+		}
+	}
+	if loop == nil {
+		fail(lit.Pos(), "`var q []rangeEntry` and `for len(q) != 0 { … }`")
+	}
+	body := loop.Body.List
+	sw, ok := body[len(body)-1].(*ast.SwitchStmt)
+	if !ok {
+		fail(loop.Pos(), "the loop body to end in `switch n.tag { … }`")
+	}
+	sel, ok := unparen(sw.Tag).(*ast.SelectorExpr)
+	if !ok || sel.Sel.Name != "tag" {
+		fail(sw.Pos(), "a switch on n.tag")
+	}
+	nid, ok := unparen(sel.X).(*ast.Ident)
+	if !ok {
+		fail(sw.Pos(), "a switch on n.tag")
+	}
+	nObj := w.info.Uses[nid]
+	c.refObj, c.dispatch = nObj, true
+	c.used["tag"], c.used["nd"], c.used["E"], c.used["fuel"], c.used["loopFuel"] = 1, 1, 1, 1, 1
+	c.pushQ = c.declare(qObj, "ents")
+	// free int variables of the switch (declared in the loop body before it) are parameters
+	var extra []string
+	seen := map[types.Object]bool{}
+	ast.Inspect(sw.Body, func(x ast.Node) bool {
+		if id, ok := x.(*ast.Ident); ok {
+			obj := w.info.Uses[id]
+			if v, ok := obj.(*types.Var); ok && !seen[obj] && obj != nObj && obj != qObj && v.Pos() < sw.Pos() && v.Pos() > loop.Pos() && !v.IsField() {
+				seen[obj] = true
+				if b, ok := v.Type().Underlying().(*types.Basic); !ok || b.Kind() != types.Int {
+					w.failAt(id.Pos(), "tree.go traversal translator (%s): the switch reads %s of type %s", name, id.Name, v.Type())
+				}
+				nv := c.declare(obj, "int")
+				extra = append(extra, fmt.Sprintf("(%s : Int)", nv.lean))
+			}
+		}
+		return true
+	})
+	code := c.switchStmt(sw, func() string { return c.finish() })
+	var b strings.Builder
+	for _, l := range c.loops {
+		b.WriteString(l + "\n")
+	}
+	fmt.Fprintf(&b, "def %s (E : Env C) (tag : Nat) (nd : Img C) (%s : List (Option C × Int)) %s : Option (List (Option C × Int)) := do\n%s",
+		c.fname, c.pushQ.lean, strings.Join(extra, " "), indentN(code, "  "))
+	return b.String()
+}
+
+// genLcpStep: lowestCommonParent is `n := root; depth := 0; for n.pointer != nil && n.tag != nodeKindLeaf { <step> };
+// return n`, the step ending in `child := n.findChild(prefix[depth]); if child == nil { return nodeRef{} }; n = *child;
+// depth++`.  The step becomes `lowestCommonParent_step (hdr) (pm) (prefix) (depth) : Option Lcp` – `.here` (return n),
+// `.nothing` (return nodeRef{}), `.descend b depth'` (look up byte b, continue at depth').  `prefixMismatch(n, prefix,
+// depth)` is the parameter `pm` (its meaning is `GenLoops.prefixMismatch_eq`).
+func (w *world) genLcpStep() string {
+	name := "lowestCommonParent"
+	fd := w.findFunc(name, "")
+	c := &nctx{w: w, fname: name + "_step", env: map[types.Object]*nvar{}, used: map[string]int{}, viewOf: map[*nvar]*nvar{}, lcpMode: true}
+	fail := func(pos token.Pos, what string) { w.failAt(pos, "tree.go descent translator: expected %s", what) }
+	if len(fd.Type.Params.List) != 2 {
+		fail(fd.Pos(), "the parameters (root nodeRef, prefix []byte)")
+	}
+	prefixObj := w.info.Defs[fd.Type.Params.List[1].Names[0]]
+	if len(fd.Body.List) != 4 {
+		fail(fd.Pos(), "`n := root; depth := 0; for … { … }; return n`")
+	}
+	a0, ok0 := fd.Body.List[0].(*ast.AssignStmt)
+	a1, ok1 := fd.Body.List[1].(*ast.AssignStmt)
+	loop, ok2 := fd.Body.List[2].(*ast.ForStmt)
+	if !ok0 || !ok1 || !ok2 || a0.Tok != token.DEFINE || a1.Tok != token.DEFINE || w.text(a0.Rhs[0]) != fd.Type.Params.List[0].Names[0].Name || w.text(a1.Rhs[0]) != "0" {
+		fail(fd.Pos(), "`n := root; depth := 0; for … { … }; return n`")
+	}
+	c.lcpN = w.info.Defs[a0.Lhs[0].(*ast.Ident)]
+	depthObj := w.info.Defs[a1.Lhs[0].(*ast.Ident)]
+	nn := c.lcpN.Name()
+	if loop.Init != nil || loop.Post != nil || w.text(loop.Cond) != nn+".pointer != nil && "+nn+".tag != nodeKindLeaf" {
+		fail(loop.Pos(), "`for n.pointer != nil && n.tag != nodeKindLeaf`")
+	}
+	if w.text(fd.Body.List[3]) != "return "+nn {
+		fail(fd.Body.List[3].Pos(), "a final `return n`")
+	}
+	body := loop.Body.List
+	if len(body) < 5 {
+		fail(loop.Pos(), "the step to end in `child := n.findChild(prefix[depth]); if child == nil { return nodeRef{} }; n = *child; depth++`")
+	}
+	tail := body[len(body)-4:]
+	dn := depthObj.Name()
+	ca, ok := tail[0].(*ast.AssignStmt)
+	if !ok || ca.Tok != token.DEFINE || w.text(ca.Rhs[0]) != nn+".findChild("+prefixObj.Name()+"["+dn+"])" {
+		fail(tail[0].Pos(), "`child := n.findChild(prefix[depth])`")
+	}
+	cn := ca.Lhs[0].(*ast.Ident).Name
+	if ifs, ok := tail[1].(*ast.IfStmt); !ok || w.text(ifs.Cond) != cn+" == nil" || len(ifs.Body.List) != 1 || w.text(ifs.Body.List[0]) != "return nodeRef{}" || ifs.Else != nil {
+		fail(tail[1].Pos(), "`if child == nil { return nodeRef{} }`")
+	}
+	if w.text(tail[2]) != nn+" = *"+cn || w.text(tail[3]) != dn+"++" {
+		fail(tail[2].Pos(), "`n = *child; depth++`")
+	}
+	// parameters: the node's header (through `node := n.node()`), pm, prefix, depth
+	c.used["pm"], c.used["E"], c.used["hdr"] = 1, 1, 1
+	nv := c.declare(c.lcpN, "ref")
+	pv := c.declare(prefixObj, "bytes")
+	dv := c.declare(depthObj, "int")
+	code := c.stmts(body[:len(body)-4], func() string {
+		return fmt.Sprintf("pure (.descend (← idx? %s %s) (%s + 1))\n", pv.lean, dv.lean, dv.lean)
+	})
+	var b strings.Builder
+	b.WriteString("inductive Lcp where\n  | here\n  | nothing\n  | descend (b : UInt8) (depth : Int)\n  deriving DecidableEq, Repr\n\n")
+	fmt.Fprintf(&b, "def %s (E : Env C) (%s : Option C) (pm : Int) (%s : Bytes) (%s : Int) : Option Lcp := do\n%s", c.fname, nv.lean, pv.lean, dv.lean, indentN(code, "  "))
+	return b.String()
+}
+
+func genRangeOps(w *world) string {
+	var b strings.Builder
+	b.WriteString("-- GENERATED by tools/extract from /repo/tree.go — do not edit.\n")
+	b.WriteString("import ArtVerif.Model.GoNode\n")
+	b.WriteString("set_option linter.unusedVariables false\n")
+	b.WriteString("namespace ArtVerif.Gen.RangeOps\nopen ArtVerif ArtVerif.GoNode\nvariable {C : Type}\n\n")
+	b.WriteString("def loopFuel : Nat := 300\n\n")
+	b.WriteString("-- what rangeScan pushes for one inner node: (child, depth of the child's path)\n")
+	b.WriteString(w.genRangePushStep() + "\n")
+	b.WriteString("end ArtVerif.Gen.RangeOps\n")
+	return b.String()
+}
+
+func genLcpOps(w *world) string {
+	var b strings.Builder
+	b.WriteString("-- GENERATED by tools/extract from /repo/tree.go — do not edit.\n")
+	b.WriteString("import ArtVerif.Model.GoNode\n")
+	b.WriteString("set_option linter.unusedVariables false\n")
+	b.WriteString("namespace ArtVerif.Gen.LcpOps\nopen ArtVerif ArtVerif.GoNode\nvariable {C : Type}\n\n")
+	b.WriteString("-- one step of lowestCommonParent (the body of its descent loop)\n")
+	b.WriteString(w.genLcpStep() + "\n")
+	b.WriteString("end ArtVerif.Gen.LcpOps\n")
 	return b.String()
 }
 
